@@ -731,7 +731,466 @@ Qed.
 Definition ex_r1 := mkReq 1 0 true [[1;1];[1]].
 Definition ex_r2 := mkReq 2 0 true [[2]].
 Definition ex_evs := [ERead [IHead ex_r1; IHead ex_r2]; EData 2; EData 1; EWrote; EData 1; EWrote; EWrote].
+Lemma ex_state : prun 1 ex_evs conn0 = mkConn [] [] 2 0 true true None [1;1;1;2] [ex_r1; ex_r2] [ex_r1; ex_r2] false.
+Proof. vm_compute. reflexivity. Qed.
 Lemma ex_out : c_out (prun 1 ex_evs conn0) = [1;1;1;2] /\ c_pipe (prun 1 ex_evs conn0) = [].
-Proof. split; reflexivity. Qed.
+Proof. rewrite ex_state. split; reflexivity. Qed.
 Lemma ex_stuck : stuck 1 (prun 1 ex_evs conn0).
-Proof. split; [reflexivity| intros i; reflexivity]. Qed.
+Proof. rewrite ex_state. split; [vm_compute; reflexivity| intros i; reflexivity]. Qed.
+
+(* ===================================================================================== *)
+(* Part 2: tunnel                                                                         *)
+(* ===================================================================================== *)
+
+Definition is_prefix (a b : bytes) : Prop := exists r, b = a ++ r.
+
+(* direction A -> B: A is the side Squid reads from, B the side it writes to *)
+Definition dir_ok (A B : side) : Prop :=
+  s_recvd A ++ s_wire A = s_sentby A /\
+  is_prefix (s_deliv B) (s_recvd A) /\
+  (s_open B = true -> s_deliv B ++ s_buf A ++ s_pre A = s_recvd A) /\
+  (s_reading A = true -> s_buf A = [] /\ s_pre A = [] /\ s_writer B = false /\ s_open A = true) /\
+  (s_writer B = true -> s_open B = true /\ s_buf A <> [] /\ s_reading A = false).
+
+Definition dok (x : sd) (t : tun) : Prop := dir_ok (gs x t) (gs (other x) t).
+Definition TI (t : tun) : Prop := dok Cl t /\ dok Sv t /\ t_crashed t = false.
+
+Lemma is_prefix_refl a : is_prefix a a.
+Proof. exists []. rewrite app_nil_r. reflexivity. Qed.
+Lemma is_prefix_app_r a b d : is_prefix a b -> is_prefix a (b ++ d).
+Proof. intros [r ->]. exists (r ++ d). rewrite app_assoc. reflexivity. Qed.
+Lemma is_prefix_of_eq a b c r : a ++ b ++ c = r -> is_prefix (a ++ b) r.
+Proof. intros <-. exists c. rewrite app_assoc. reflexivity. Qed.
+Lemma is_prefix_take a b c r k : a ++ b ++ c = r -> is_prefix (a ++ takeN k b) r.
+Proof.
+  intros <-. exists (dropN k b ++ c). rewrite <- (takeN_dropN k b) at 1. rewrite <- !app_assoc. reflexivity.
+Qed.
+Lemma takeN_nonempty {A} n (l : list A) : n <> 0 -> l <> [] -> takeN n l <> [].
+Proof.
+  intros Hn Hl. destruct l; [congruence|]. cbn [takeN].
+  destruct (n =? 0) eqn:E; [apply N.eqb_eq in E; congruence| discriminate].
+Qed.
+Lemma lenN_nonempty {A} (l : list A) : l <> [] -> lenN l <> 0.
+Proof. destruct l; [congruence|]. intros _. cbn [lenN]. lia. Qed.
+
+(* the fields of a side that matter when it is the source (A) resp. the destination (B) of a direction *)
+Definition a_same (A A' : side) : Prop :=
+  s_recvd A' = s_recvd A /\ s_wire A' = s_wire A /\ s_sentby A' = s_sentby A /\ s_buf A' = s_buf A /\
+  s_pre A' = s_pre A /\ s_reading A' = s_reading A /\ s_open A' = s_open A.
+Definition b_same (B B' : side) : Prop :=
+  s_deliv B' = s_deliv B /\ s_open B' = s_open B /\ s_writer B' = s_writer B.
+(* everything of A but the reading flag / the open flag *)
+Definition a_data_same (A A' : side) : Prop :=
+  s_recvd A' = s_recvd A /\ s_wire A' = s_wire A /\ s_sentby A' = s_sentby A /\ s_buf A' = s_buf A /\
+  s_pre A' = s_pre A.
+
+Lemma a_same_refl A : a_same A A. Proof. repeat split. Qed.
+Lemma b_same_refl B : b_same B B. Proof. repeat split. Qed.
+
+Lemma L_same A B A' B' : dir_ok A B -> a_same A A' -> b_same B B' -> dir_ok A' B'.
+Proof.
+  unfold dir_ok, a_same, b_same. intros H (E1 & E2 & E3 & E4 & E5 & E6 & E7) (F1 & F2 & F3).
+  rewrite E1, E2, E3, E4, E5, E6, E7, F1, F2, F3. exact H.
+Qed.
+
+(* A stops reading and/or is closed *)
+Lemma L_stopA A B A' B' :
+  dir_ok A B -> a_data_same A A' -> s_reading A' = false -> b_same B B' -> dir_ok A' B'.
+Proof.
+  unfold dir_ok, a_data_same, b_same. intros (D1 & D2 & D3 & D4 & D5) (E1 & E2 & E3 & E4 & E5) Er (F1 & F2 & F3).
+  rewrite E1, E2, E3, E4, E5, Er, F1, F2, F3.
+  split; [assumption|]. split; [assumption|]. split; [assumption|]. split; [discriminate|].
+  intros Hw. destruct (D5 Hw) as (X1 & X2 & _). repeat split; assumption.
+Qed.
+
+(* B is closed (its pending write is cancelled) *)
+Lemma L_closeB A B A' B' :
+  dir_ok A B -> a_same A A' -> s_deliv B' = s_deliv B -> s_open B' = false -> s_writer B' = false -> dir_ok A' B'.
+Proof.
+  unfold dir_ok, a_same. intros (D1 & D2 & D3 & D4 & D5) (E1 & E2 & E3 & E4 & E5 & E6 & E7) F1 F2 F3.
+  rewrite E1, E2, E3, E4, E5, E6, E7, F1, F2, F3.
+  split; [assumption|]. split; [assumption|]. split; [discriminate|]. split; [|discriminate].
+  intros Hr. destruct (D4 Hr) as (X1 & X2 & _ & X4). repeat split; assumption.
+Qed.
+
+(* A's pending read delivered d = the first m bytes on the wire *)
+Lemma L_readA A B A' B' m :
+  dir_ok A B -> s_reading A = true ->
+  s_recvd A' = s_recvd A ++ takeN m (s_wire A) -> s_wire A' = dropN m (s_wire A) -> s_sentby A' = s_sentby A ->
+  s_buf A' = takeN m (s_wire A) -> s_pre A' = s_pre A -> s_reading A' = false -> b_same B B' -> dir_ok A' B'.
+Proof.
+  unfold dir_ok, b_same. intros (D1 & D2 & D3 & D4 & D5) Hr E1 E2 E3 E4 E5 E6 (F1 & F2 & F3).
+  destruct (D4 Hr) as (Hb & Hp & Hw & Ho).
+  rewrite E1, E2, E3, E4, E5, E6, F1, F2, F3.
+  split; [rewrite <- app_assoc, takeN_dropN; assumption|].
+  split; [apply is_prefix_app_r; assumption|].
+  split.
+  { intros Hob. specialize (D3 Hob). rewrite Hb, Hp in D3. rewrite Hp. cbn [app] in D3. rewrite app_nil_r in *.
+    rewrite D3. reflexivity. }
+  split; [discriminate|]. intros X. congruence.
+Qed.
+
+(* copy(): a write of A's buffer to B is started *)
+Lemma L_copy A B A' B' :
+  dir_ok A B -> s_open B = true -> s_buf A <> [] -> s_reading A = false ->
+  a_same A A' -> s_deliv B' = s_deliv B -> s_open B' = s_open B -> s_writer B' = true -> dir_ok A' B'.
+Proof.
+  unfold dir_ok, a_same. intros (D1 & D2 & D3 & D4 & D5) Ho Hb Hr (E1 & E2 & E3 & E4 & E5 & E6 & E7) F1 F2 F3.
+  rewrite E1, E2, E3, E4, E5, E6, E7, F1, F2, F3.
+  split; [assumption|]. split; [assumption|]. split; [assumption|]. split; [intros X; congruence|].
+  intros _. repeat split; assumption.
+Qed.
+
+(* the write to B completed: A's buffer was delivered and is free again *)
+Lemma L_wroteB A B A' B' :
+  dir_ok A B -> s_writer B = true ->
+  s_recvd A' = s_recvd A -> s_wire A' = s_wire A -> s_sentby A' = s_sentby A -> s_buf A' = [] ->
+  s_pre A' = s_pre A -> s_reading A' = s_reading A ->
+  s_deliv B' = s_deliv B ++ s_buf A -> s_open B' = s_open B -> s_writer B' = false -> dir_ok A' B'.
+Proof.
+  unfold dir_ok. intros (D1 & D2 & D3 & D4 & D5) Hw E1 E2 E3 E4 E5 E6 F1 F2 F3.
+  destruct (D5 Hw) as (Ho & Hb & Hr). specialize (D3 Ho).
+  rewrite E1, E2, E3, E4, E5, E6, F1, F2, F3.
+  split; [assumption|]. split; [eapply is_prefix_of_eq; exact D3|].
+  split; [intros _; cbn [app]; rewrite <- app_assoc; exact D3|].
+  split; [intros X; congruence| discriminate].
+Qed.
+
+(* the write to B failed after k bytes; B is closed *)
+Lemma L_writeerrB A B A' B' k :
+  dir_ok A B -> s_writer B = true -> a_same A A' ->
+  s_deliv B' = s_deliv B ++ takeN k (s_buf A) -> s_open B' = false -> s_writer B' = false -> dir_ok A' B'.
+Proof.
+  unfold dir_ok, a_same. intros (D1 & D2 & D3 & D4 & D5) Hw (E1 & E2 & E3 & E4 & E5 & E6 & E7) F1 F2 F3.
+  destruct (D5 Hw) as (Ho & Hb & Hr). specialize (D3 Ho).
+  rewrite E1, E2, E3, E4, E5, E6, E7, F1, F2, F3.
+  split; [assumption|]. split; [eapply is_prefix_take; exact D3|]. split; [discriminate|].
+  split; [intros X; congruence| discriminate].
+Qed.
+
+(* copyClientBytes/copyServerBytes: the next block of the pre-read bytes is put into the free buffer *)
+Lemma L_preA A B A' B' n :
+  dir_ok A B -> s_buf A = [] -> s_reading A = false ->
+  s_recvd A' = s_recvd A -> s_wire A' = s_wire A -> s_sentby A' = s_sentby A ->
+  s_buf A' = takeN n (s_pre A) -> s_pre A' = dropN n (s_pre A) -> s_reading A' = false -> b_same B B' -> dir_ok A' B'.
+Proof.
+  unfold dir_ok, b_same. intros (D1 & D2 & D3 & D4 & D5) Hb Hr E1 E2 E3 E4 E5 E6 (F1 & F2 & F3).
+  rewrite E1, E2, E3, E4, E5, E6, F1, F2, F3.
+  split; [assumption|]. split; [assumption|].
+  split; [intros Ho; specialize (D3 Ho); rewrite Hb in D3; cbn [app] in D3; rewrite takeN_dropN; exact D3|].
+  split; [discriminate|].
+  intros Hw. destruct (D5 Hw) as (_ & X & _). congruence.
+Qed.
+
+(* copyRead: a read on A is started *)
+Lemma L_startreadA A B A' B' :
+  dir_ok A B -> s_buf A = [] -> s_pre A = [] -> s_writer B = false -> s_open A = true ->
+  a_data_same A A' -> s_open A' = s_open A -> b_same B B' -> dir_ok A' B'.
+Proof.
+  unfold dir_ok, a_data_same, b_same.
+  intros (D1 & D2 & D3 & D4 & D5) Hb Hp Hw Ho (E1 & E2 & E3 & E4 & E5) E7 (F1 & F2 & F3).
+  rewrite E1, E2, E3, E4, E5, E7, F1, F2, F3.
+  split; [assumption|]. split; [assumption|]. split; [assumption|].
+  split; [intros _; repeat split; assumption|]. intros X. congruence.
+Qed.
+
+(* the peer of A sends d *)
+Lemma L_sendA A B A' B' d :
+  dir_ok A B -> s_recvd A' = s_recvd A -> s_wire A' = s_wire A ++ d -> s_sentby A' = s_sentby A ++ d ->
+  s_buf A' = s_buf A -> s_pre A' = s_pre A -> s_reading A' = s_reading A -> s_open A' = s_open A ->
+  b_same B B' -> dir_ok A' B'.
+Proof.
+  unfold dir_ok, b_same. intros (D1 & D2 & D3 & D4 & D5) E1 E2 E3 E4 E5 E6 E7 (F1 & F2 & F3).
+  rewrite E1, E2, E3, E4, E5, E6, E7, F1, F2, F3.
+  split; [rewrite app_assoc, D1; reflexivity|]. repeat split; try assumption; try apply D4; try apply D5; assumption.
+Qed.
+
+(* ---------- tunnel-level lemmas ---------- *)
+Lemma gs_ss_same x s t : gs x (ss x s t) = s.
+Proof. destruct x; reflexivity. Qed.
+Lemma gs_ss_other x s t : gs (other x) (ss x s t) = gs (other x) t.
+Proof. destruct x; reflexivity. Qed.
+Lemma other_other x : other (other x) = x.
+Proof. destruct x; reflexivity. Qed.
+Lemma crashed_ss x s t : t_crashed (ss x s t) = t_crashed t.
+Proof. destruct x; reflexivity. Qed.
+Lemma deleted_ss x s t : t_deleted (ss x s t) = t_deleted t.
+Proof. destruct x; reflexivity. Qed.
+
+Lemma TI_dok x t : TI t -> dok x t /\ dok (other x) t /\ t_crashed t = false.
+Proof. intros (H1 & H2 & H3). destruct x; cbn [other]; (split; [assumption|split; assumption]). Qed.
+
+Lemma TI_upd x t s' :
+  dir_ok s' (gs (other x) t) -> dir_ok (gs (other x) t) s' -> t_crashed t = false -> TI (ss x s' t).
+Proof.
+  intros H1 H2 H3. unfold TI, dok. destruct x; cbn [gs ss other t_cl t_sv t_crashed] in *; (split; [assumption|split; assumption]).
+Qed.
+
+Ltac sproj := cbn [s_open s_noted s_buf s_pre s_writer s_reading s_wire s_fin s_sentby s_recvd s_deliv].
+
+Lemma close_conn_TI x t : TI t -> TI (close_conn x t).
+Proof.
+  intros H. unfold close_conn. destruct (s_open (gs x t)) eqn:Eo; [|assumption].
+  destruct (TI_dok x t H) as (Hx & Ho & Hc). unfold dok in *. rewrite other_other in Ho.
+  apply TI_upd; [| |assumption].
+  - eapply L_stopA; [exact Hx| | |apply b_same_refl]; sproj; repeat split.
+  - eapply L_closeB; [exact Ho|apply a_same_refl|..]; sproj; reflexivity.
+Qed.
+
+Lemma close_conn_open_other x t : s_open (gs (other x) (close_conn x t)) = s_open (gs (other x) t).
+Proof. unfold close_conn. destruct (s_open (gs x t)); [rewrite gs_ss_other|]; reflexivity. Qed.
+
+Lemma copy_to_TI to t :
+  TI t -> s_open (gs to t) = true -> s_buf (gs (other to) t) <> [] -> s_reading (gs (other to) t) = false ->
+  TI (copy_to to t).
+Proof.
+  intros H Ho Hb Hr. unfold copy_to.
+  destruct (TI_dok to t H) as (Hx & Hox & Hc). unfold dok in *. rewrite other_other in Hox.
+  apply TI_upd; [| |assumption].
+  - eapply L_same; [exact Hx| |apply b_same_refl]. unfold a_same; sproj; repeat split.
+  - eapply L_copy; [exact Hox|assumption..|apply a_same_refl| | |]; sproj; reflexivity.
+Qed.
+
+(* keepGoingAfterRead *)
+Lemma keep_going_TI len err from t :
+  TI t ->
+  TI (snd (keep_going len err from t)) /\
+  (fst (keep_going len err from t) = true ->
+   snd (keep_going len err from t) = t /\ s_open (gs (other from) t) = true /\ len <> 0).
+Proof.
+  intros H. unfold keep_going.
+  destruct err; cbn [fst snd]; [split; [apply close_conn_TI; assumption| discriminate]|].
+  destruct (len =? 0) eqn:El; cbn [fst snd].
+  { split; [|discriminate].
+    destruct (_ && _); [apply close_conn_TI|]; apply close_conn_TI; assumption. }
+  destruct (s_open (gs (other from) t)) eqn:Eo; cbn [negb fst snd].
+  - split; [assumption|]. intros _. apply N.eqb_neq in El. repeat split; assumption.
+  - split; [apply close_conn_TI; assumption| discriminate].
+Qed.
+
+Lemma bufsz_pos : gen_tunnel_bufsz <> 0.
+Proof. vm_compute. discriminate. Qed.
+
+(* copyClientBytes / copyServerBytes *)
+Lemma copy_bytes_TI from t :
+  TI t -> s_buf (gs from t) = [] -> s_reading (gs from t) = false -> s_writer (gs (other from) t) = false ->
+  s_open (gs from t) = true -> TI (copy_bytes from t).
+Proof.
+  intros H Hb Hr Hw Ho. unfold copy_bytes. rewrite Hb.
+  destruct (TI_dok from t H) as (Hx & Hox & Hc). unfold dok in *. rewrite other_other in Hox.
+  destruct (s_pre (gs from t)) as [|p0 pre'] eqn:Ep.
+  - (* copyRead *)
+    apply TI_upd; [| |assumption].
+    + eapply L_startreadA; [exact Hx|assumption..| | |apply b_same_refl].
+      * unfold a_data_same; sproj. rewrite Hb, Ep. repeat split.
+      * reflexivity.
+    + eapply L_same; [exact Hox|apply a_same_refl|]. unfold b_same; sproj. repeat split.
+  - set (n := N.min (lenN (p0 :: pre')) gen_tunnel_bufsz).
+    assert (Hn : n <> 0).
+    { unfold n. pose proof bufsz_pos. cbn [lenN]. lia. }
+    match goal with |- context [keep_going n false from ?tt] => set (t1 := tt) end.
+    assert (H1 : TI t1).
+    { unfold t1. apply TI_upd; [| |assumption].
+      - eapply L_preA with (n := n); [exact Hx|assumption|assumption|..|apply b_same_refl]; sproj;
+          try reflexivity; try assumption; rewrite Ep; reflexivity.
+      - eapply L_same; [exact Hox|apply a_same_refl|]. unfold b_same; sproj. repeat split. }
+    destruct (keep_going_TI n false from t1 H1) as [Hk1 Hk2].
+    destruct (keep_going n false from t1) as [k t2] eqn:Ek. cbn [fst snd] in *.
+    destruct k; [|assumption].
+    destruct (Hk2 eq_refl) as (-> & Hoo & _).
+    apply copy_to_TI; [assumption|assumption| |].
+    + rewrite other_other. unfold t1. rewrite gs_ss_same. sproj. apply takeN_nonempty; [assumption| discriminate].
+    + rewrite other_other. unfold t1. rewrite gs_ss_same. sproj. exact Hr.
+Qed.
+
+(* ---------- events ---------- *)
+Lemma on_tsend_TI x d t : TI t -> TI (on_tsend x d t).
+Proof.
+  intros H. unfold on_tsend. destruct (s_fin (gs x t)); [assumption|].
+  destruct (TI_dok x t H) as (Hx & Hox & Hc). unfold dok in *. rewrite other_other in Hox.
+  apply TI_upd; [| |assumption].
+  - eapply L_sendA with (d := d); [exact Hx|..|apply b_same_refl]; sproj; reflexivity.
+  - eapply L_same; [exact Hox|apply a_same_refl|]. unfold b_same; sproj. repeat split.
+Qed.
+
+Lemma on_tfin_TI x t : TI t -> TI (on_tfin x t).
+Proof.
+  intros H. unfold on_tfin.
+  destruct (TI_dok x t H) as (Hx & Hox & Hc). unfold dok in *. rewrite other_other in Hox.
+  apply TI_upd; [| |assumption].
+  - eapply L_same; [exact Hx| |apply b_same_refl]. unfold a_same; sproj. repeat split.
+  - eapply L_same; [exact Hox|apply a_same_refl|]. unfold b_same; sproj. repeat split.
+Qed.
+
+Lemma stop_reading_TI x t s' :
+  TI t -> s' = (let s := gs x t in mkSide (s_open s) (s_noted s) (s_buf s) (s_pre s) (s_writer s) false (s_wire s)
+                                        (s_fin s) (s_sentby s) (s_recvd s) (s_deliv s)) ->
+  TI (ss x s' t).
+Proof.
+  intros H ->. destruct (TI_dok x t H) as (Hx & Hox & Hc). unfold dok in *. rewrite other_other in Hox.
+  apply TI_upd; [| |assumption].
+  - eapply L_stopA; [exact Hx| | |apply b_same_refl]; cbn zeta; sproj; repeat split.
+  - eapply L_same; [exact Hox|apply a_same_refl|]. unfold b_same; cbn zeta; sproj. repeat split.
+Qed.
+
+Lemma on_tread_TI x n t : TI t -> TI (on_tread x n t).
+Proof.
+  intros H. unfold on_tread.
+  destruct (t_deleted t || negb (s_reading (gs x t) && s_open (gs x t))) eqn:Eg; [assumption|].
+  apply orb_false_iff in Eg. destruct Eg as [_ Eg]. apply negb_false_iff in Eg. apply andb_true_iff in Eg.
+  destruct Eg as [Hr Ho].
+  destruct (s_wire (gs x t)) as [|w0 wire'] eqn:Ew.
+  - destruct (s_fin (gs x t)) eqn:Ef; [|assumption].
+    apply keep_going_TI. eapply stop_reading_TI; [exact H|]. cbn zeta. rewrite Ew, Ef. reflexivity.
+  - set (m := N.min (N.max n 1) (N.min gen_tunnel_bufsz (lenN (w0 :: wire')))).
+    assert (Hm : m <> 0). { unfold m. pose proof bufsz_pos. cbn [lenN]. lia. }
+    match goal with |- context [keep_going m false x ?tt] => set (t1 := tt) end.
+    destruct (TI_dok x t H) as (Hx & Hox & Hc). unfold dok in *. rewrite other_other in Hox.
+    assert (H1 : TI t1).
+    { unfold t1. apply TI_upd; [| |assumption].
+      - eapply L_readA with (m := m); [exact Hx|exact Hr|..|apply b_same_refl]; sproj; rewrite ?Ew; reflexivity.
+      - eapply L_same; [exact Hox|apply a_same_refl|]. unfold b_same; sproj. repeat split. }
+    destruct (keep_going_TI m false x t1 H1) as [Hk1 Hk2].
+    destruct (keep_going m false x t1) as [k t2] eqn:Ek. cbn [fst snd] in *.
+    destruct k; [|assumption].
+    destruct (Hk2 eq_refl) as (-> & Hoo & _).
+    apply copy_to_TI; [assumption|assumption| |].
+    + rewrite other_other. unfold t1. rewrite gs_ss_same. sproj. apply takeN_nonempty; [assumption| discriminate].
+    + rewrite other_other. unfold t1. rewrite gs_ss_same. sproj. reflexivity.
+Qed.
+
+Lemma on_treaderr_TI x t : TI t -> TI (on_treaderr x t).
+Proof.
+  intros H. unfold on_treaderr.
+  destruct (t_deleted t || negb (s_reading (gs x t) && s_open (gs x t))); [assumption|].
+  apply keep_going_TI. eapply stop_reading_TI; [exact H|]. reflexivity.
+Qed.
+
+Lemma on_twrote_TI x t : TI t -> TI (on_twrote x t).
+Proof.
+  intros H. unfold on_twrote.
+  destruct (t_deleted t || negb (s_writer (gs x t) && s_open (gs x t))) eqn:Eg; [assumption|].
+  apply orb_false_iff in Eg. destruct Eg as [_ Eg]. apply negb_false_iff in Eg. apply andb_true_iff in Eg.
+  destruct Eg as [Hw Ho].
+  destruct (TI_dok (other x) t H) as (Hf & Hfx & Hc). unfold dok in *. rewrite other_other in *.
+  (* direction (other x) -> x *)
+  pose proof Hf as (_ & _ & _ & _ & D5). destruct (D5 Hw) as (_ & Hbuf & Hrd).
+  destruct (lenN (s_buf (gs (other x) t)) =? 0) eqn:El.
+  { apply N.eqb_eq in El. exfalso. apply (lenN_nonempty _ Hbuf). exact El. }
+  match goal with |- context [copy_bytes (other x) ?tt] => set (t2 := tt) end.
+  assert (H2 : TI t2).
+  { unfold t2. rewrite gs_ss_other. rewrite <- (other_other x) at 1.
+    apply TI_upd; rewrite ?other_other, ?gs_ss_same; [| |rewrite crashed_ss; assumption].
+    - eapply L_wroteB; [exact Hf|exact Hw|..]; sproj; reflexivity.
+    - eapply L_same; [exact Hfx| |]; [unfold a_same|unfold b_same]; sproj; repeat split. }
+  assert (Hopen2 : s_open (gs (other x) t2) = s_open (gs (other x) t)).
+  { unfold t2. destruct x; reflexivity. }
+  rewrite Hopen2.
+  destruct (s_open (gs (other x) t)) eqn:Eof; cbn [negb].
+  - apply copy_bytes_TI; [assumption|..].
+    + unfold t2. destruct x; reflexivity.
+    + unfold t2. destruct x; cbn [other gs ss t_cl t_sv s_reading] in *; exact Hrd.
+    + unfold t2. destruct x; reflexivity.
+    + exact Hopen2.
+  - apply close_conn_TI. assumption.
+Qed.
+
+Lemma on_twriteerr_TI x k t : TI t -> TI (on_twriteerr x k t).
+Proof.
+  intros H. unfold on_twriteerr.
+  destruct (t_deleted t || negb (s_writer (gs x t) && s_open (gs x t))) eqn:Eg; [assumption|].
+  apply orb_false_iff in Eg. destruct Eg as [_ Eg]. apply negb_false_iff in Eg. apply andb_true_iff in Eg.
+  destruct Eg as [Hw Ho].
+  destruct (TI_dok x t H) as (Hx & Hox & Hc). unfold dok in *. rewrite other_other in *.
+  unfold close_conn. rewrite gs_ss_same. sproj. rewrite Ho.
+  assert (E : forall s1 s2 t0, ss x s2 (ss x s1 t0) = ss x s2 t0) by (intros; destruct x; reflexivity).
+  rewrite E.
+  apply TI_upd; [| |assumption].
+  - eapply L_stopA; [exact Hx| | |apply b_same_refl]; sproj; repeat split.
+  - eapply L_writeerrB with (k := k); [exact Hox|exact Hw|apply a_same_refl|..]; sproj; reflexivity.
+Qed.
+
+Lemma tdelete_TI t : TI t -> TI (tdelete t).
+Proof. intros H. exact H. Qed.
+
+Lemma on_tclosed_TI x t : TI t -> TI (on_tclosed x t).
+Proof.
+  intros H. unfold on_tclosed.
+  destruct (t_deleted t || s_open (gs x t) || s_noted (gs x t)) eqn:Eg; [assumption|].
+  apply orb_false_iff in Eg. destruct Eg as [Eg _]. apply orb_false_iff in Eg. destruct Eg as [_ Ho].
+  match goal with |- context [tdelete ?tt] => set (t1 := tt) end.
+  destruct (TI_dok x t H) as (Hx & Hox & Hc). unfold dok in *. rewrite other_other in *.
+  assert (H1 : TI t1).
+  { unfold t1. apply TI_upd; [| |assumption].
+    - eapply L_same; [exact Hx| |apply b_same_refl]. unfold a_same; sproj; repeat split.
+    - eapply L_closeB; [exact Hox|apply a_same_refl|..]; sproj; try reflexivity. exact Ho. }
+  destruct (negb (s_open (gs Cl t1)) && negb (s_open (gs Sv t1))); [apply tdelete_TI; assumption|].
+  destruct (s_writer (gs (other x) t1)); [assumption| apply close_conn_TI; assumption].
+Qed.
+
+Lemma on_ttimeout_TI t : TI t -> TI (on_ttimeout t).
+Proof.
+  intros H. unfold on_ttimeout. destruct (t_deleted t); [assumption|].
+  apply close_conn_TI. apply close_conn_TI. assumption.
+Qed.
+
+Lemma tstep_TI e t : TI t -> TI (tstep e t).
+Proof.
+  destruct e; cbn [tstep];
+    [apply on_tsend_TI|apply on_tfin_TI|apply on_tread_TI|apply on_treaderr_TI|apply on_twrote_TI|
+     apply on_twriteerr_TI|apply on_tclosed_TI|apply on_ttimeout_TI].
+Qed.
+
+Lemma trun_TI evs t : TI t -> TI (trun evs t).
+Proof.
+  revert t; induction evs as [|e evs IH]; intros t H; cbn [trun fold_left]; [assumption|].
+  apply IH. apply tstep_TI. assumption.
+Qed.
+
+Lemma side0_dir pre : dir_ok (side0 pre) (side0 []) /\ dir_ok (side0 []) (side0 pre).
+Proof.
+  unfold dir_ok, side0; sproj. split.
+  - split; [apply app_nil_r|]. split; [exists pre; reflexivity|]. split; [reflexivity|].
+    split; discriminate.
+  - split; [reflexivity|]. split; [exists []; reflexivity|]. split; [intros _; apply app_nil_r|].
+    split; discriminate.
+Qed.
+
+Lemma tun_start_TI early : TI (tun_start early).
+Proof.
+  unfold tun_start.
+  assert (H0 : TI (mkTun (side0 early) (side0 []) false false)).
+  { destruct (side0_dir early) as [A B]. unfold TI, dok; cbn [gs other t_cl t_sv t_crashed]. split; [assumption|split; [assumption|reflexivity]]. }
+  assert (H1 : TI (copy_bytes Sv (mkTun (side0 early) (side0 []) false false))).
+  { apply copy_bytes_TI; [assumption|reflexivity..]. }
+  apply copy_bytes_TI; [assumption|..].
+  - reflexivity.
+  - reflexivity.
+  - reflexivity.
+  - reflexivity.
+Qed.
+
+(* ---------- main statements ---------- *)
+Theorem tunnel_accounting early evs x :
+  let t := trun evs (tun_start early) in
+  let A := gs x t in let B := gs (other x) t in
+  s_recvd A ++ s_wire A = s_sentby A /\
+  is_prefix (s_deliv B) (s_recvd A) /\
+  (s_open B = true -> s_deliv B ++ s_buf A ++ s_pre A ++ s_wire A = s_sentby A).
+Proof.
+  cbn zeta. pose proof (trun_TI evs _ (tun_start_TI early)) as H.
+  destruct (TI_dok x _ H) as ((D1 & D2 & D3 & _) & _ & _).
+  split; [assumption|]. split; [assumption|].
+  intros Ho. specialize (D3 Ho). rewrite <- D1, <- D3, <- !app_assoc. reflexivity.
+Qed.
+
+Theorem tunnel_prefix_invariant early evs x :
+  let t := trun evs (tun_start early) in
+  is_prefix (s_deliv (gs (other x) t)) (s_sentby (gs x t)).
+Proof.
+  cbn zeta. destruct (tunnel_accounting early evs x) as (D1 & [r D2] & _).
+  exists (r ++ s_wire (gs x (trun evs (tun_start early)))). rewrite <- D1, D2, <- app_assoc. reflexivity.
+Qed.
+
+Theorem tunnel_no_assertion_failure early evs : t_crashed (trun evs (tun_start early)) = false.
+Proof. pose proof (trun_TI evs _ (tun_start_TI early)) as H. apply H. Qed.
